@@ -101,6 +101,84 @@ theorem c05_pkce_redeem (cfg : Cfg) (env : Env) (g : Glue) (r : Req) (s : Sessio
   obtain ⟨nonce, rd, csrf, s0, _, hst, hc, _, _, _, _, hrw⟩ := callback_established cfg env g r s h
   exact ⟨nonce, rd, csrf, hst, hc, hrw⟩
 
+/-- `callbackFinish` keeps the redemption it was called with on every branch -/
+theorem callbackFinish_redeemedWith (cfg : Cfg) (env : Env) (name nonce rd code : Str) (csrf : CSRF) (s0 : Session) :
+    (callbackFinish cfg env name nonce rd code csrf s0).redeemedWith = some (code, csrf.verifier) := by
+  unfold callbackFinish
+  simp only
+  repeat' split
+  all_goals simp [errorPage]
+
+/-- **c05_every_redeem** (whether or not the login then succeeds).  EVERY code the callback sends to the token
+    endpoint is the request's `code`, sent with the verifier stored in the validly signed CSRF cookie that is
+    named after the request's state — never another login's, never none. -/
+theorem c05_every_redeem (cfg : Cfg) (env : Env) (g : Glue) (r : Req) (code v : Str)
+    (h : (callbackHandler cfg env r g.decodeB64).redeemedWith = some (code, v)) :
+    ∃ nonce rd csrf, stateOf cfg g r = some (nonce, rd) ∧
+      env.csrfByName (env.csrfCookieName (stateSubstring cfg nonce)) = some csrf ∧
+      v = csrf.verifier ∧ code = formGet r.form "code".toList := by
+  unfold callbackHandler at h
+  split at h
+  · simp [errorPage] at h
+  · simp only at h
+    split at h
+    · simp [errorPage] at h
+    · rename_i nonce rd hst
+      unfold callbackWithState at h
+      simp only at h
+      split at h
+      · simp [errorPage] at h
+      · rename_i csrf hcsrf
+        split at h
+        · simp [errorPage] at h
+        · split at h
+          · simp only [Option.some.injEq, Prod.mk.injEq] at h
+            exact ⟨nonce, rd, csrf, by unfold stateOf; exact hst, hcsrf, h.2.symm, h.1.symm⟩
+          · rw [callbackFinish_redeemedWith] at h
+            simp only [Option.some.injEq, Prod.mk.injEq] at h
+            exact ⟨nonce, rd, csrf, by unfold stateOf; exact hst, hcsrf, h.2.symm, h.1.symm⟩
+
+/-- **c05_no_cookie_no_redeem**: without a validly signed CSRF cookie under the name the state asks for, the
+    authorization code never leaves the proxy -/
+theorem c05_no_cookie_no_redeem (cfg : Cfg) (env : Env) (g : Glue) (r : Req) (nonce rd : Str)
+    (hst : stateOf cfg g r = some (nonce, rd))
+    (hno : env.csrfByName (env.csrfCookieName (stateSubstring cfg nonce)) = none) :
+    (callbackHandler cfg env r g.decodeB64).redeemedWith = none := by
+  cases hr : (callbackHandler cfg env r g.decodeB64).redeemedWith with
+  | none => rfl
+  | some cv =>
+    obtain ⟨code, v⟩ := cv
+    obtain ⟨nonce', rd', csrf, hst', hc, _, _⟩ := c05_every_redeem cfg env g r code v hr
+    rw [hst] at hst'; cases hst'
+    rw [hno] at hc; cases hc
+
+/-- **callback_refused_is_error_page** (C03: "... yields an error page and no session cookie").  Whatever the
+    callback is sent: either it establishes a session (a 302 to the validated landing page), or its answer IS an
+    error page — never a redirect that restarts the login, never a sign-in page. -/
+theorem callback_refused_is_error_page (cfg : Cfg) (env : Env) (r : Req) (d : Str → Str) :
+    (∃ s, Established (callbackHandler cfg env r d) s ∧ (callbackHandler cfg env r d).status = 302) ∨
+    ((callbackHandler cfg env r d).kind = .errorPage ∧ ∀ s, ¬ Established (callbackHandler cfg env r d) s) := by
+  unfold callbackHandler
+  split
+  · right; simp [errorPage, Established]
+  · simp only
+    split
+    · right; simp [errorPage, Established]
+    · unfold callbackWithState
+      simp only
+      split
+      · right; simp [errorPage, Established]
+      · split
+        · right; simp [errorPage, Established]
+        · split
+          · right; simp [errorPage, Established]
+          · unfold callbackFinish
+            simp only
+            repeat' split
+            all_goals first
+              | (right; simp [errorPage, Established]; done)
+              | (left; exact ⟨_, List.mem_append_right _ (List.mem_singleton.2 rfl), rfl⟩)
+
 /-- RFC 7636 shape of the verifier: `base64url-nopad` of 96 bytes is 128 characters of the
     base64url alphabet ⊆ unreserved characters, within [43,128]. -/
 theorem verifier_shape (bytes : Str) (h : bytes.length = 96) :
